@@ -39,15 +39,18 @@ int_t *intMalloc(int_t n) { if (n != in_n) g_argbad = 1; return block(n, 0); }
 int_t *intCalloc(int_t n) { if (n != in_n + 1) g_argbad = 1; return block(n, 1); }
 void ifill(int_t *a, int_t alen, int_t ival) { int_t i; for (i = 0; i < CAP; i++) if (i < alen) a[i] = ival; }
 
+static int_t small(void) { return nondet_int_t() & 7; }
+static int_t small4(void) { return nondet_int_t() & 15; }
 static int is_head(int_t c) { return g_sb1[c] != 0; }
 
 void h_preset_map(void) {
   int_t c, r, p, q, t, pos, nrs, s, last, e, k, rows, size, W, first, reserve, rsi, found, slot_of;
-  /* ---------- inputs ---------- */
-  in_n = nondet_int_t();
-  for (c = 0; c < CAP; c++) { in_colcnt[c] = nondet_int_t(); in_super_bnd[c] = nondet_int_t(); in_colbeg[c] = nondet_int_t(); in_colend[c] = nondet_int_t(); }
-  for (c = 0; c < CAP + 2; c++) { in_relax[c].fcol = nondet_int_t(); in_relax[c].size = nondet_int_t(); }
-  for (p = 0; p < NNZ; p++) in_rowind[p] = nondet_int_t();
+  /* ---------- inputs ---------- (small non-negative numbers are built from 3 resp. 4 nondeterministic bits: the upper bits are then constants
+   * for the bit-level encoding and the products formed by the routine stay small circuits; the ranges are narrowed by the assumptions below) */
+  in_n = small();
+  for (c = 0; c < CAP; c++) { in_colcnt[c] = small(); in_super_bnd[c] = small(); in_colbeg[c] = small4(); in_colend[c] = small4(); }
+  for (c = 0; c < CAP + 2; c++) { in_relax[c].fcol = small(); in_relax[c].size = small(); }
+  for (p = 0; p < NNZ; p++) in_rowind[p] = small();
   in_A.Stype = SLU_NCP; in_A.nrow = in_n; in_A.ncol = in_n; in_A.Store = &in_Astore;
   in_Astore.rowind = in_rowind; in_Astore.colbeg = in_colbeg; in_Astore.colend = in_colend; in_Astore.nnz = NNZ; in_Astore.nzval = 0;
   in_o.colcnt_h = in_colcnt; in_o.part_super_h = in_super_bnd;
@@ -125,7 +128,10 @@ void h_preset_map(void) {
     __CPROVER_assert(s < e && e <= in_n, "slot is a non-empty column range");
     for (t = 1; t < CAP; t++) if (s + t < e) __CPROVER_assert(g_map[s + t] == -t, "inside a slot map_in_sup[s+t] == -t (Glu_alloc(LUSUP) finds the leader)");
     if (s <= g_c && g_c < e) slot_of = s;
-    pos += reserve; s = e; g_nslots++;
+    /* end of this slot = start of the next one; re-based on the routine's own start of this slot (equal to pos by the assertion just made),
+     * so that every obligation compares one reserved size only */
+    if (!DYN || reserve != 0 || g_map[s] != 0) pos = g_map[s] + reserve;
+    s = e; g_nslots++;
     __CPROVER_assert(pos >= g_maxpos, "slot starts are non-decreasing, slots do not overlap"); g_maxpos = pos;
   }
   __CPROVER_assert(s == in_n, "slots cover all columns");
